@@ -252,6 +252,7 @@ func branchRendersOf(in ssa.Instruction, typ string) []fieldRef {
 func checkC09(w *World, r *Report) {
 	r.Explanation = "Decides the control-flow clauses of C09 that are visible in the shape of the renderers, on every path: (R09.1) IfNode.Render renders the body of the first truthy condition and returns — no later condition is evaluated and no else branch rendered after a truthy condition, a body is rendered only on the truthy edge of the condition with the same index, and the else branch is reachable only when no condition was truthy; (R09.2) the for renderer never renders both else branch and body, renders a body only where the length is known non-zero, and the else branch only on a nothing-to-iterate edge; (R09.3) every binding of loop / value / key variables on the caller's own context is preceded by a shadow call whose restoring closure is deferred, so nested loops keep their own counters and the variables do not leak; (R09.4) the byte offset produced by ranging over a string never flows into loop metadata, and a string's loop length is its rune count; (R09.5) SetNode.Render binds its name on the caller's own context to the evaluated value, only after successful evaluation. (R09.6/R09.7) the truthiness routines test every numeric zero and have an arm for every falsy kind; (R09.8) if a lookup can answer from a memo field, every writer of the variable map refreshes it; (R09.9) the if node receives the condition and body lists exactly as parsed. Not decided: the counter formulas (index, revindex, …), truthiness table values, range construction — value-level. (R09.10) in every function that evaluates conditions of an if chain, between two such evaluations every path takes the falsy edge of a truthiness test."
 	r.Explanation += " Rules added in later rounds: (R09.11) SetVariable binds on every path; (R09.12) no variable is removed on render paths; (R09.13) `loop` is bound on every path to every render of a for body; (R09.14) the attribute name of a GetAttr node is compared with constants only under a dominating key lookup. (R09.15) the loop renderer is never handed a constant nil sequence; (R09.16) list/hash literals evaluate to containers allocated by that evaluation; (R09.5) set binds through SetVariable on its own context. (R09.17) the else branch is not reachable from a binding of `loop`."
+	r.Explanation += " Round 9: (R09.18) tag headers reach the expression tokenizer as pieces of the source."
 	r.RuleText = "obligation = one path property of a renderer; non-trivial = all"
 	r.Trusted = []string{"field-of-origin classification of the rendered node slices (conditions/bodies/elseBranch/body)"}
 
